@@ -30,7 +30,10 @@ class Current(pd.Series):
         elif isinstance(loads, str):
             super().__init__({loads: 1})
         elif loads is not None and all(isinstance(load, str) for load in loads):
-            super().__init__({load_id: 1 for load_id in loads})
+            loads_dict = {load_id: 1 for load_id in loads}
+            # An empty list must not give dtype object (it would spread to every
+            # constraint row built from this Current, e.g. in jpl_acn).
+            super().__init__(loads_dict, dtype=None if loads_dict else "float64")
         elif isinstance(loads, pd.Series):
             super().__init__(loads)
         elif loads is None:
